@@ -267,15 +267,15 @@ pub fn run(cfg: &Cfg, rep: &mut Report) {
           break;
         }
       }
-      // Under the any-order executor a reordering in a pipeline whose only
-      // scheduler operators are the one-task-per-notification ones
+      // Under the any-order executor a reordering in a pipeline that contains one of the
+      // one-task-per-notification operators
       // (observe_on, delay, delay_at) is that family's reordering even if no
       // single operator happened to reproduce it within the sampled seeds.
       let family = |op: &Op| matches!(op, Op::ObserveOn | Op::Delay(_) | Op::DelayAt(_));
       if blamed.is_none()
         && kind == "order_not_preserved"
         && exec_class(&c) == "any-order"
-        && c.ops.iter().filter(|op| op.uses_scheduler()).all(family)
+        && c.ops.iter().any(family)
       {
         blamed = c.ops.iter().find(|op| family(op)).map(name_of);
       }
